@@ -8,3 +8,4 @@ def _reg(pid, engine="jit"):
 _reg("C01")
 _reg("C02")
 _reg("C03")
+_reg("C04")
